@@ -705,8 +705,13 @@ func genInner(r *rand.Rand, deg int, variant string) vh.Case {
 
 // ---------------------------------------------------------------- clone programs
 
-func snapshot(hs []*btree.BTree) obs {
-	o := obs{kind: "snap"}
+func snapshot(hs []*btree.BTree) (o obs) {
+	defer func() {
+		if p := recover(); p != nil {
+			o = obs{kind: "panic", panic: fmt.Sprint(p)}
+		}
+	}()
+	o = obs{kind: "snap"}
 	for _, h := range hs {
 		if h == nil {
 			o.snap = append(o.snap, nil)
